@@ -192,10 +192,9 @@ func genbankDBLinkPairParser(gb *GenBank, depth int) pars.Parser {
 			if len(s) < i+2 {
 				return pars.NewError("expected value after `:`", state.Position())
 			}
-			db, id := s[:i], s[i+2:]
 			// One entry per line, as the writer writes them: a database may
 			// well be named twice.
-			gb.Fields.DBLink = append(gb.Fields.DBLink, Pair{db, id})
+			result.SetValue(Pair{s[:i], s[i+2:]})
 			return nil
 		}
 	}
@@ -209,14 +208,20 @@ func genbankDBLinkParser(gb *GenBank, depth int) pars.Parser {
 		if err := fieldNameParser(state, pars.Void); err != nil {
 			return err
 		}
+		// The entries reach the record only when the whole field was read:
+		// a field that fails here is read again by another parser.
+		pairs := []Pair{}
 		if err := pairParser(state, result); err != nil {
 			return err
 		}
+		pairs = append(pairs, result.Value.(Pair))
 		for indentParser(state, pars.Void) == nil {
 			if err := pairParser(state, result); err != nil {
 				return err
 			}
+			pairs = append(pairs, result.Value.(Pair))
 		}
+		gb.Fields.DBLink = append(gb.Fields.DBLink, pairs...)
 		return nil
 	}
 }
